@@ -13,6 +13,10 @@ Proof. vm_compute. reflexivity. Qed.
 Theorem parse_errors_wrapped_under_lock : parse_wraps_ok parse_error_wraps = true.
 Proof. vm_compute. reflexivity. Qed.
 
+(* no return path of the hand-unlocking entry point keeps the mutex (a leaked lock blocks every later call for ever) *)
+Theorem every_return_releases_the_lock : returns_ok lock_returns = true.
+Proof. vm_compute. reflexivity. Qed.
+
 Lemma locks_ok_all : forall l, locks_ok l = true -> forall s, In s l -> ls_locked s = true.
 Proof.
   intros l H s Hin. unfold locks_ok in H. apply andb_prop in H. destruct H as [H _].
@@ -25,3 +29,4 @@ Proof. apply locks_ok_all. exact entry_points_hold_the_lock. Qed.
 Print Assumptions entry_points_hold_the_lock.
 Print Assumptions parse_errors_wrapped_under_lock.
 Print Assumptions every_recorded_access_is_locked.
+Print Assumptions every_return_releases_the_lock.
